@@ -230,7 +230,8 @@ impl Spec {
       }
     };
     // aggregation over several output clauses is not a well-formed table
-    if multi && matches!(self.policy, Policy::Sum | Policy::Min | Policy::Max | Policy::Count) {
+    // (the count of the matching rules does not depend on the output clauses: compared when a rule matches)
+    if multi && (matches!(self.policy, Policy::Sum | Policy::Min | Policy::Max) || (self.policy == Policy::Count && matched.is_empty())) {
       return Out::Unspec;
     }
     if matched.is_empty() {
@@ -315,13 +316,7 @@ impl Spec {
           _ => Out::Num(*nums.iter().max().unwrap()),
         }
       }
-      Policy::Count => {
-        if multi {
-          Out::Unspec
-        } else {
-          Out::Num(matched.len() as i64)
-        }
-      }
+      Policy::Count => Out::Num(matched.len() as i64),
     }
   }
 }
